@@ -161,4 +161,69 @@ CLAIMS = {
         "note": _STD_NOTE + " The prediction clauses (returned value equals a real run's, 'would execute at least one task') quantify over backend histories and are not decided.",
         "technique": "static analysis: lifecycle abstract interpretation, dominance facts, who-may-call through the Executor class hierarchy",
     },
+    "C13": {
+        "text": 'Structural guards of promise.py on every path: settlement writes behind the is_pending guard and before the single notification, closed ownership of the state fields repo-wide, swap-before-iterate in _notify, exactly one resolver and one rejector per then() on every path with late registration notified, adoption and exception capture, index-ordered/once-counted combinators.',
+        "note": _STD_NOTE + ' Undecided: adoption/order semantics over arbitrary histories of nested promises.',
+        "technique": 'static analysis: CFG dominance and must-pass, who-may-write, statement-order rules',
+    },
+    "C14": {
+        "text": 'Premises of a written prefix-code injectivity argument (sa/rules/C14.md) discharged on the source: distinct single-byte non-digit tags, tag-first/END-last encoders, length after conversion, dispatch order with bool excluded and TypeError otherwise, sorted mapping items with buffer keys, decoder table agreement, hash_struct uses bencode unchanged.',
+        "note": _STD_NOTE + ' The induction itself is a paper argument; the checker decides its premises.',
+        "technique": 'static analysis: constant extraction, write-sequence and dispatch-order extraction, table agreement',
+    },
+    "C19": {
+        "text": 'Dispatch-table agreement between iter_nested_value_children and map_nested_value over an exhaustive abstract domain of value kinds, agreement on children (dict keys and values, all dataclass fields incl. non-init), type-preserving rebuild, recursion with the same function.',
+        "note": _STD_NOTE + ' Undecided: reconstruction of user types with custom constructors at run time.',
+        "technique": 'static analysis: decision-table extraction + finite enumeration over abstract kinds',
+    },
+    "C20": {
+        "text": 'Row/hash agreement of record_call_node (same parameters hashed and stored, one hash function, one CallNode tag site), sibling finaliser agreement, entity type/id pairing at every record_tags site, job parent/execution links and value keys.',
+        "note": _STD_NOTE + ' Undecided: database contents after a run; crash windows are C22.',
+        "technique": 'static analysis: call-site keyword agreement, sibling cross-check, def-use classification',
+    },
+    "C23": {
+        "text": 'Schema coverage of record transfer: every ORM column of every transferred model is serialized and deserialized (exception table with reasons), every table transferred/companion/safely absent (CallSubtreeTask only because the C03 reader guard holds, re-checked), ownership walk follows every foreign key, idempotent put_records.',
+        "note": _STD_NOTE + ' Undecided: equality of dumps between repositories.',
+        "technique": 'static analysis: ORM/serializer schema extraction and coverage comparison, writer/reader key agreement',
+    },
+    "C24": {
+        "text": 'Clauses only: Merkle premise of the tag edit graph (hashed parents are the recorded parents => acyclic short of a hash fixpoint), monotone is_current (only ever assigned False, repo-wide), CLI-to-backend operation mapping and the update/delete/re-add parent selection.',
+        "note": _STD_NOTE + ' Agreement with the multiset model over arbitrary edit histories is a statement about sequences of database states and is not decided.',
+        "technique": 'static analysis: def-use agreement, who-may-write with value restriction, structural mapping rules',
+    },
+    "C25": {
+        "text": 'Clauses only: every handle transformation by the scheduler is followed by advance_handle on all (non-dry-run) paths, rollbacks precede resource use and submission on every submitting path and visit every Handle leaf, validity is the backend flag, advance (re)validates, rollback invalidates exactly transitive children.',
+        "note": _STD_NOTE + ' Agreement with a lineage model over arbitrary advance/rollback histories is not decided; fork-key timing dependence is C07.',
+        "technique": 'static analysis: CFG dominance facts in closures, lifecycle path order, structural rules on the backend operations',
+    },
+    "C26": {
+        "text": 'Precedence order at every context merge site, recursive last-wins shape of merge_dicts by dominance facts, guards of the dotted-path lookup (dict test dominates the subscript, KeyError -> default), option-based transport of overrides.',
+        "note": _STD_NOTE + ' Undecided: the merged values themselves.',
+        "technique": 'static analysis: operand-order extraction with def-use classification, CFG dominance facts',
+    },
+    "C27": {
+        "text": 'Order of option sources in Job.get_raw_options (classified by resolved callee/attribute), creation sites and guards of scheduler-imposed options, monotone accumulation of exported option names with closed writers, options evaluated before _exec_job is reachable.',
+        "note": _STD_NOTE + ' Undecided: option values.',
+        "technique": 'static analysis: dict-spread order extraction, dominance facts, who-may-write/call',
+    },
+    "C29": {
+        "text": 'Heredoc safety (terminator returned only on the not-a-line outcome, quoted delimiter, own-line placement, same command text), staging order stage < wrapped command < unstage over all leaves, shape-preserving output mapping, default shell iff no shebang.',
+        "note": _STD_NOTE + ' Undecided: byte-for-byte reproduction when a shell executes the wrapper.',
+        "technique": 'static analysis: CFG facts, template-constant parsing, statement order',
+    },
+    "C31": {
+        "text": 'Size rejection dominates every store, readers reach deserialisation only on the has_value branch, placeholder convention agrees between writer and reader with the hash computed from the real bytes, missing bytes map to absent at every layer.',
+        "note": _STD_NOTE + ' Undecided: hash equality of read-back values; partially written store files after a crash.',
+        "technique": 'static analysis: CFG dominance, unchecked-result discipline, writer/reader agreement',
+    },
+    "C32": {
+        "text": 'Aligned construction of array scratch specs from one job sequence, single array index for every spec subscript under array mode, reunite table keyed and consulted by evaluation hash only (regex AST of the job-name parser), eval-hash-derived scratch paths.',
+        "note": _STD_NOTE + ' Undecided: equality of remote and local results (pickling, environment).',
+        "technique": 'static analysis: iteration-source agreement, reaching-definition rule, regex AST inspection',
+    },
+    "C38": {
+        "text": "subrun's root task options exclude SINGLE cache results, extending the current execution passes the calling job's id through the JobInfo placeholder to extend_run (which rebuilds the parent with that id and execution), forced/new executions get fresh expressions, results and errors pass through unchanged.",
+        "note": _STD_NOTE + ' Undecided: equivalence of results with direct evaluation.',
+        "technique": 'static analysis: set-display and keyword extraction, decision-list extraction, absence-of-handler rule',
+    },
 }
